@@ -224,6 +224,10 @@ func replayOnly(repo, hdir, file string) int {
 		allHarnessNames = append(allHarnessNames, h.Name())
 	}
 	defer cleanupReplay()
+	if bin, err := buildReplayBinary(repo, hdir, allHarnessNames); err == nil {
+		rr := runReplay(bin, v.Harness, v.Model, replayThorough)
+		fmt.Printf("native run: reached=%v failed=%v assume_violated=%v panic=%q missing_inputs=%v notes=%v %s\n", rr.Reached, rr.Failed, rr.AssumeViolated, rr.Panic, rr.MissingInputs, rr.Notes, rr.runErr)
+	}
 	res := replayViolation(repo, hdir, &v, file)
 	fmt.Printf("replay of %s [%s]: %s\n", v.Harness, v.Label, res)
 	if res == "reproduced" {
